@@ -384,9 +384,13 @@ def Column.jsonCells (c : Column) : List JVal := c.cells.map (jsonCell (c.kind =
 def Table.jsonRecords (t : Table) : JVal :=
   .arr ((toRows (t.cols.map Column.jsonCells) .null t.nrows).map fun row => .obj ((t.cols.map (·.name)).zip row))
 
+/-- the row labels of a frame built from rows (`RangeIndex`) as `to_json` writes them: the positions as decimal strings
+`"0"`, `"1"`, …, `"10"`, … -/
+def rowLabels (n : Nat) : List Str := (List.range n).map natText
+
 /-- `orient='columns'`: `{name: {"0": cell, "1": cell, ...}, ...}` -/
 def Table.jsonColumns (t : Table) : JVal :=
-  .obj (t.cols.map fun c => (c.name, .obj (((List.range c.cells.length).map natText).zip c.jsonCells)))
+  .obj (t.cols.map fun c => (c.name, .obj ((rowLabels c.cells.length).zip c.jsonCells)))
 
 /-- a JSON scalar as a cell of a decoded frame -/
 def JVal.cell : JVal → Option Val
@@ -423,6 +427,29 @@ def fromColumns (members : List (Str × JVal)) : Option Frame :=
   members.mapM fun (n, v) => match v with
     | .obj cells => (cells.mapM fun (kc : Str × JVal) => JVal.cell kc.2).map fun cs => (n, cs)
     | _ => none
+
+/-! A decoder that is NOT the code: it orders the rows of the columns layout by their labels (`sort_index()` on the string
+index).  Only here to state what the document order of `from_dict` is worth: see `C19_codec_json_label_sorting_counterexample`. -/
+
+/-- lexicographic order of strings by code point (how pandas sorts a string index) -/
+def strLt : Str → Str → Bool
+  | [], [] => false
+  | [], _ :: _ => true
+  | _ :: _, [] => false
+  | a :: r, b :: s => a < b || (a == b && strLt r s)
+
+def insertByLabel (x : Str × JVal) : List (Str × JVal) → List (Str × JVal)
+  | [] => [x]
+  | y :: ys => if strLt x.1 y.1 then x :: y :: ys else y :: insertByLabel x ys
+
+def sortByLabel : List (Str × JVal) → List (Str × JVal)
+  | [] => []
+  | x :: xs => insertByLabel x (sortByLabel xs)
+
+def fromColumnsSorted (members : List (Str × JVal)) : Option Frame :=
+  fromColumns (members.map fun nv => (nv.1, match nv.2 with
+    | .obj cells => .obj (sortByLabel cells)
+    | v => v))
 
 /-- `Json.to_pandas`: a list is a list of records; a dict with `instances` / `inputs` is TF-serving; otherwise columns -/
 def jsonToPandas : JVal → Option Frame
